@@ -1,5 +1,5 @@
 (** C13 - Job bookkeeping: counters match tasks, complete exactly once, atomic submits. *)
-From HQ Require Import Base.Prelude Cluster.Types Cluster.Core Cluster.Reactor Cluster.Worker Cluster.Server Cluster.Sys Cluster.Monitors Cluster.ProofsJob Cluster.ProofsCore Cluster.ProofsMore Cluster.ProofsStep.
+From HQ Require Import Base.Prelude Cluster.Types Cluster.Core Cluster.Reactor Cluster.Worker Cluster.Server Cluster.Sys Cluster.Monitors Cluster.ProofsJob Cluster.ProofsCore Cluster.ProofsMore Cluster.ProofsStep Cluster.ProofsSubmit.
 From Coq Require Import ZArith.
 Local Open Scope N_scope.
 
@@ -39,6 +39,21 @@ Theorem C13_auto_ids_exact : forall mx n,
 Proof. exact auto_ids_exact. Qed.
 
 Check C13_counters_exact : forall ops reserve maxfill s', jrun (init_sys reserve maxfill, []) ops = Ok s' -> hq_ok (fst s') = true.
+(** Atomic submits: a submit that is answered with an error (job not open / not found, task id
+    already exists, non-unique id, invalid dependency) leaves the WHOLE system state - job layer,
+    scheduler core, worker processes - exactly as it was. *)
+Theorem C13_rejected_array_submit_no_effect : forall s jobsel ids entries rq prio cl tlim mf s' outs,
+  step s (OpSubmit jobsel ids entries rq prio cl tlim mf) = Ok (s', outs) ->
+  existsb is_submit_err outs = true -> s' = s.
+Proof. exact submit_array_rejected_no_effect. Qed.
+
+Theorem C13_rejected_graph_submit_no_effect : forall s jobsel rqs ts mf s' outs,
+  step s (OpSubmitG jobsel rqs ts mf) = Ok (s', outs) ->
+  existsb is_submit_ok outs = false -> s' = s.
+Proof. exact submit_graph_rejected_no_effect. Qed.
+
+Print Assumptions C13_rejected_array_submit_no_effect.
+Print Assumptions C13_rejected_graph_submit_no_effect.
 Print Assumptions C13_counters_exact.
 Print Assumptions C13_system_counters_exact.
 Print Assumptions C13_invariant_step.
